@@ -246,6 +246,44 @@ def run(ctx, res):
             first = next(i for i in range(len(pico)) if back[i] != pico[i])
             res.fail('C16:png-full:%d' % trial, 'the memory image hidden in a full-size picture does not come back: first difference at 0x%x (the version byte is at 0x8000)' % first,
                      {'version_byte': pico[0x8000], 'length': len(pico)})
+    # the whole .p8.png writer: the memory hidden in the written file (read here with pypng and the 2-bit rule, not with picotool) is
+    # gfx, map, gff, music, sfx, code area (unused bytes zero), version — whatever picture the destination or the label held before
+    import io
+    import png as pypng
+    from pico8.game.formatter.p8png import P8PNGFormatter
+    prev = None
+    for trial in range(ctx.budget(4, 24)):
+        code = rng.choice([b'', b'x=1\n', b'print("hi")\n' * rng.randrange(1, 40), bytes(rng.choice(b'abc =\n()1') for _ in range(rng.randrange(1, 3000)))])
+        g = U.make_game(regions={nm: U.rand_bytes(rng, sz) for nm, sz in U.REGION_SIZES}, code=code, version=rng.choice([0, 5, 8, 8, 16]))
+        how = trial % 3
+        out = io.BytesIO()
+        try:
+            if how == 0 or prev is None:
+                P8PNGFormatter.to_file(g, out)
+            else:
+                lbl = os.path.join(ctx.tmp, 'c16lbl%d.p8.png' % trial)
+                open(lbl, 'wb').write(prev)
+                P8PNGFormatter.to_file(g, out, label_fname=lbl)
+        except Exception as e:
+            res.fail('C16:png-writer:%d' % trial, 'writing a cart as .p8.png raised %s' % U.exc_kind(e), {'code': hx(code)[:200], 'label': how})
+            continue
+        w, h_, rows, meta = pypng.Reader(bytes=out.getvalue()).asRGBA8()
+        mem = bytearray()
+        for r in rows:
+            for c in range(w):
+                mem.append((r[c * 4 + 3] & 3) << 6 | (r[c * 4] & 3) << 4 | (r[c * 4 + 1] & 3) << 2 | (r[c * 4 + 2] & 3))
+        reg = U.regions_of(g)
+        stored = bytes(p8png.get_bytes_from_code(b''.join(g.lua.to_lines())))
+        want = reg['gfx'] + reg['map'] + reg['gff'] + reg['music'] + reg['sfx'] + stored + bytes(0x3d00 - len(stored)) + bytes([g.version])
+        res.evaluations += 1
+        res.count('png-writer:' + ('default-label', 'label-from-earlier-cart', 'label-from-earlier-cart')[how if prev is not None else 0])
+        res.nontrivial.add(('png-writer', trial, len(code)))
+        if bytes(mem[:0x8001]) != want or len(want) != 0x8001:
+            first = next((i for i in range(min(len(want), len(mem))) if mem[i] != want[i]), min(len(want), len(mem)))
+            res.fail('C16:png-writer:%d' % trial, 'the memory hidden in the written .p8.png differs from gfx,map,gff,music,sfx,code area,version at 0x%x '
+                     '(code area = stored code then zeros; the picture used as label held another cart)' % first,
+                     {'code': hx(code)[:200], 'label': ['default', 'earlier cart', 'earlier cart'][how], 'version': g.version})
+        prev = out.getvalue()
     # a section object rendered, edited through the library (its own setters, the map's shared rows, raw cart writes), rendered again:
     # the second text is the text of the bytes it holds NOW (= what a fresh object with the same bytes renders)
     from props import C17
